@@ -58,13 +58,15 @@ func TestCheck(t *testing.T) {
 	thorough := c.Thorough()
 	depth := engine.Pick(c, 4, 12)
 	msets := engine.Pick(c, 2, 2)
-	c.SetRule(fmt.Sprintf("E4 fault enumeration: per flow (final request on a cloned pre-state, both routers) the fault-free run, then every plan of up to %d failing dynamic journal positions (successors of a plan enumerated over the journal observed under that plan) x every error kind per position, then 'every call of M fails' for every method name seen in any journal of the flow (thorough: also every unordered pair of names); distinct = distinct (part, oracle rule, observed outcome class) triples", depth))
+	c.SetRule(fmt.Sprintf("E4 fault enumeration: per flow (final request on a cloned pre-state, both routers) the fault-free run, then every plan of up to %d failing dynamic journal positions (successors of a plan enumerated over the journal observed under that plan) x every error kind per position (%d kinds: opaque, context errors bare / wrapped / inside an *oidc.Error, StatusError, *oidc.Error of every type, the sentinels the storage interface documents or the library tests with errors.Is - each at every method), then 'every call of M fails with kind K' for every method name seen in any journal of the flow and every kind (the plan that defeats a retry loop of any length), and every unordered pair of names x every kind; distinct = distinct (part, oracle rule, observed outcome class) triples", depth, len(allKinds)))
 	c.Assume(
 		"trusted base: refstore (reference storage, journals every call before applying the fault plan; an injected error is returned before any state change of that call), rig HTTP recorder, synctest clock frozen at the epoch for every execution",
-		"the statement's 'a call into the pluggable storage fails' is modelled as: the call returns one of {errors.New, context.DeadlineExceeded, context.Canceled, *oidc.Error server_error}"+map[bool]string{true: " (thorough adds a wrapped deadline error and *oidc.Error invalid_request)", false: ""}[thorough]+"; RevokeToken additionally its own *oidc.Error invalid_client; the storage does not panic, hang or return (nil value, nil error)",
+		"the statement's 'a call into the pluggable storage fails' is modelled as: the call returns one of "+strings.Join(allKinds, ", ")+" (RevokeToken, whose return type is *oidc.Error, returns the *oidc.Error kinds as they are and every other kind as server_error with the value as parent); the storage does not panic, hang or return (nil value, nil error); op.IDTokenHintExpiredError is not in the alphabet (cannot be constructed well-formed outside package op)",
 		"Either (DESIGN 1.6): introspection answering 200 {\"active\":false}; discovery under a failing SignatureAlgorithms is recorded as information only",
+		"Either (new with the sentinel kinds): an execution in which the ONLY failing calls returned a value the storage interface documents as an answer - StoreDeviceAuthorization: ErrDuplicateUserCode ('try again with a new code'), GetRefreshTokenInfo: ErrInvalidRefreshToken ('not a refresh token') - may end in an error or in a success; a success must then hand out no code / device_code / user_code / refresh token / access token that the storage did not accept (compared with the storage state after the request; the same relation is checked on every fault-free run as a self-test)",
 		"demanded less than DESIGN 2/C10-O: the device poll's slow_down vs access_denied mapping is recorded in the outcome class, not demanded (the statement only asks for an error)",
-		"not judged here: what a failed request leaves behind in the storage (e.g. an access token created before SigningKey failed) — the statement speaks about the response",
+		"not judged here: what a failed request leaves behind in the storage (e.g. an access token created before SigningKey failed) - the statement speaks about the response",
+		"signatures: C10/<what>/<router>/<family>:<method blamed = first failing call that is not a documented answer>; '=<kind family>' is appended only when the violation disappears once every injected failure of the plan is replaced by the opaque error (the kind is then what it takes)",
 	)
 
 	flows := allFlows(thorough)
@@ -122,6 +124,7 @@ func TestCheck(t *testing.T) {
 		c.Extra("c10_methods_never_faulted", missing)
 		c.Extra("c10_flows", len(flows))
 		c.Extra("c10_error_kinds", kindsFor("RevokeToken", thorough))
+		c.Extra("c10_documented_answers", map[string]string{"StoreDeviceAuthorization": "dup-user-code, wrapped-dup-user-code", "GetRefreshTokenInfo": "invalid-refresh-token, wrapped-invalid-refresh-token"})
 		// the fault-free journals, one per flow family representative, as documentation
 		js := map[string]string{}
 		for f, j := range rep.JournalOf {
